@@ -182,9 +182,68 @@ def r_typemap(ctx):
                           % (name, why, got, ok))
 
 
+def r_optional(ctx):
+    rid = "C17.optional"
+    ctx.rule(rid, "value_member_key_to_field: a named member is generated as an optional field (the one that is left out when None) exactly "
+                  "when it carries the occurrence `?`, whatever its type is — a required member of nullable type `T / null` keeps its key "
+                  "when it holds null, so that the serialised value still validates (abstract evaluation, type lowering scripted)", floor=6)
+    f = ctx.facts
+    fi = f.fn(F, "value_member_key_to_field")
+    for occ in (None, "Optional", "ZeroOrMore"):
+        for ty in ("T", "Option<T>"):
+            key = "occurrence %s|type %s" % (occ or "none", ty)
+            vm = ("enum", "ValueMemberKeyEntry", {
+                "member_key": ("Some", ("enum", "MemberKey::Bareword", {"ident": ("enum", "Identifier", {"ident": ("str", "k"), "socket": ("None",)})})),
+                "occur": ("None",) if occ is None else ("Some", ("enum", "Occurrence", {"occur": ("enum", "Occur::" + occ, {})})),
+                "entry_type": ("atom", "TYPE")})
+
+            def on_call(kind, nm, node, args, recv, ty=ty):
+                if kind == "fn" and nm:
+                    b = nm.split("::")[-1]
+                    if b in ("type_to_rust_string", "type1_to_rust_string"):
+                        return ("Ok", ("str", ty))
+                    if b == "to_snake_case":
+                        return args[0]
+                    if b == "vmke_line":
+                        return 1
+                    if b == "is_vec_occurrence":
+                        o = args[0]
+                        return isinstance(o, tuple) and o[1].split("::")[-1] in ("ZeroOrMore", "OneOrMore", "Exact")
+                    if b == "type_tagged_prelude":
+                        return ("None",)
+                if kind == "method" and nm == "docs_for":
+                    return absint.MutList()
+                return NotImplemented
+            it = Interp(env={"vmke": vm, "comments": OPAQUE}, on_call=on_call)
+            try:
+                try:
+                    res = it.block(fi.node["body"])
+                except Return as r:
+                    res = r.v
+            except Unknown as e:
+                ctx.incomplete_msg(rid, "%s: %s" % (key, e))
+                continue
+            fld = None
+            if isinstance(res, tuple) and res[0] == "Ok" and isinstance(res[1], tuple) and res[1][0] == "Some" and isinstance(res[1][1], tuple) and isinstance(res[1][1][2], dict):
+                fld = res[1][1][2]
+            if fld is None:
+                ctx.incomplete_msg(rid, "%s: result %r" % (key, res))
+                continue
+            rt = fld.get("rust_type")
+            rt = rt[1] if isinstance(rt, tuple) and rt[:1] == ("str",) else getattr(rt, "s", repr(rt))
+            want_t = "Vec<%s>" % ty if occ == "ZeroOrMore" else ty
+            ctx.site(rid, key, F, fi.line, {"is_optional": fld.get("is_optional"), "rust_type": rt})
+            if fld.get("is_optional") is not (occ == "Optional"):
+                ctx.violation(rid, "optional|occurrence %s|%s" % (occ or "none", "nullable" if ty.startswith("Option") else "plain"), F, fi.line,
+                              "a member with occurrence %s and type %s is generated with is_optional = %r: %s"
+                              % (occ or "none", ty, fld.get("is_optional"),
+                                 "a required member holding null is dropped when serialised and the result no longer validates" if occ is None else "optionality does not follow `?`"))
+
+
 def run(ctx):
     ctx.guarded("C17.keywords", r_keywords)
     ctx.guarded("C17.strvariant", r_strvariant)
     ctx.guarded("C17.names", r_names)
     ctx.guarded("C17.pure", r_pure)
     ctx.guarded("C17.typemap", r_typemap)
+    ctx.guarded("C17.optional", r_optional)
